@@ -35,15 +35,15 @@ TEXT = {
  },
 
  "C02": {
-  "level": 'Machine-checked proofs (Coq, no axioms): node-level rules (up-to-date check for new votes, truncation only from the first conflict, follower holds request entries as sent, follower commit rule, leader append-only) and, on the abstract protocol (Props/C02.v when present), leader completeness and commit stability for every cluster size and interleaving with static voters. PARTIAL where stated: voter-set changes (C08), refinement node model -> abstract protocol argued per rule, not as one simulation theorem. Tie: per-event differential execution + monitors (committed entry differs / leader misses committed entry).',
+  "level": 'Machine-checked proofs (Coq, no axioms): node-level rules (up-to-date check for new votes, truncation only from the first conflict, follower holds request entries as sent, follower commit rule, leader append-only) and, on the abstract protocol (Props/C02.v when present), leader completeness and commit stability for every cluster size and interleaving with static voters. PARTIAL where stated: voter-set changes (C08) and snapshots are outside the abstract protocol. Tie: per-event differential execution + monitors (committed entry differs / leader misses committed entry). Cluster-level tie (Props/AbsTie.v): whole-cluster histories observed on real nodes (static membership, no snapshots) are checked on every run by the executable, proved-sound checker Abs/Exec.v to be runs of the abstract protocol these theorems are about, so the theorems hold of the observed projections (observed_* theorems); histories with membership changes or snapshots are covered by the node-level rules, correspondence and monitors only.',
   "design_ref": "DESIGN.md 5 (C02), Appendix E", "note": NODE_NOTE,
   "technique": 'Coq proofs (rules + abstract protocol invariant) + differential correspondence + monitors',
  }, "C03": {
-  "level": 'Machine-checked proofs (Coq, no axioms): the state machine is fed exactly the entries after its position up to the commit index, contiguously and in order (follower path and leader queue path); on the abstract protocol (Props/C03.v when present) committed prefixes of any two nodes are prefix-related. Tie: per-event differential execution (fsm.index/term after every event) + monitor comparing the recorded command lists of all state machines after every event.',
+  "level": 'Machine-checked proofs (Coq, no axioms): the state machine is fed exactly the entries after its position up to the commit index, contiguously and in order (follower path and leader queue path); on the abstract protocol (Props/C03.v when present) committed prefixes of any two nodes are prefix-related. Tie: per-event differential execution (fsm.index/term after every event) + monitor comparing the recorded command lists of all state machines after every event. Cluster-level tie (Props/AbsTie.v): whole-cluster histories observed on real nodes (static membership, no snapshots) are checked on every run by the executable, proved-sound checker Abs/Exec.v to be runs of the abstract protocol these theorems are about, so the theorems hold of the observed projections (observed_* theorems); histories with membership changes or snapshots are covered by the node-level rules, correspondence and monitors only.',
   "design_ref": "DESIGN.md 5 (C03)", "note": NODE_NOTE,
   "technique": 'Coq proofs + differential correspondence + state-machine prefix monitor',
  }, "C04": {
-  "level": 'Machine-checked proofs (Coq, no axioms): log matching on the abstract protocol for every reachable state of every cluster size (Props/C04.v), leader append-only; node-level: the request writer emits faithful log slices, followers hold request entries exactly as sent. Tie: per-event differential execution + ledger monitor over every log dumped.',
+  "level": 'Machine-checked proofs (Coq, no axioms): log matching on the abstract protocol for every reachable state of every cluster size (Props/C04.v), leader append-only; node-level: the request writer emits faithful log slices, followers hold request entries exactly as sent. Tie: per-event differential execution + ledger monitor over every log dumped. Cluster-level tie (Props/AbsTie.v): whole-cluster histories observed on real nodes (static membership, no snapshots) are checked on every run by the executable, proved-sound checker Abs/Exec.v to be runs of the abstract protocol these theorems are about, so the theorems hold of the observed projections (observed_* theorems); histories with membership changes or snapshots are covered by the node-level rules, correspondence and monitors only.',
   "design_ref": "DESIGN.md 5 (C04), Appendix E", "note": NODE_NOTE,
   "technique": 'Coq invariant proof on abstract protocol + node rules + differential correspondence + ledger monitor',
  }, "C07": {
@@ -69,7 +69,9 @@ TEXT = {
            "the cached voter count describes the latest configuration across all leader events, commit only beyond the term start and after "
            "flushing, follower flush-before-success and the follower commit rule; plus (when Props/C06.v is present) the cluster-level theorem on "
            "the abstract protocol that every committed entry is durably held by a majority. Tie: per-event differential execution; a monitor counts "
-           "durable copies at every commit advance of the simulated cluster.",
+           "durable copies at every commit advance of the simulated cluster. Cluster-level tie (Props/AbsTie.v): whole-cluster histories observed on "
+           "real nodes (static membership, no snapshots; projections include each node's flushed prefix) are checked on every run by the proved-sound "
+           "checker Abs/Exec.v to be runs of the abstract protocol, so committed_durable_on_majority holds of what was observed.",
   "design_ref": "DESIGN.md 5 (C06)", "note": NODE_NOTE,
   "technique": "Coq proofs of commit/flush rules + leader-cache invariant; differential correspondence; durable-majority monitor",
  },
@@ -120,8 +122,8 @@ TEXT = {
            "(one elected node per term; every leader was elected by a majority of recorded votes; one vote per (term, voter)). The vote layer's steps "
            "are what the node model's handlers do to (term, votedFor, role, votes counted); the node model (one Gallina function per Go handler) is "
            "tied to the code on every run by per-event differential execution on a deterministic simulator driving real *Raft values, and a monitor "
-           "looks for two leaders in one term on the implementation. PARTIAL where stated: the refinement from node model to vote layer is argued per "
-           "handler lemma (C05 theorems), not yet mechanised as one simulation theorem; voter-set changes need the overlap hypothesis of C08.",
+           "looks for two leaders in one term on the implementation. PARTIAL where stated: voter-set changes need the overlap hypothesis of C08."
+           " Cluster-level tie (Props/AbsTie.v): whole-cluster histories observed on real nodes (static membership, no snapshots) are checked on every run by the executable, proved-sound checker Abs/Exec.v to be runs of the abstract protocol these theorems are about, so the theorems hold of the observed projections (observed_* theorems); histories with membership changes or snapshots are covered by the node-level rules, correspondence and monitors only.",
   "design_ref": "DESIGN.md 4.4, 5 (C01), Appendix C",
   "note": NODE_NOTE,
   "technique": "Coq inductive-invariant proof on abstract vote protocol + per-event differential correspondence of the node model with the real handlers + monitor",
@@ -148,5 +150,16 @@ TEXT = {
   "note": "Trusted: Coq kernel + vm_compute; the Go harness and literal printers; boolean equality used for comparison; Go's map order is modelled "
           "as an arbitrary permutation. Not modelled: io.Reader error paths other than short reads; JSON marshalling.",
   "technique": "Coq proof over parser-combinator model + differential correspondence (coqc vm_compute) with real encode/decode",
+ },
+ "C15": {
+  "level": "Machine-checked proofs (Coq, no axioms) of the task ledger of the node model for every state and event: tasks pending before an event "
+           "plus the tasks it submits equal, as a multiset, the tasks pending after it plus the tasks it answered (so no task is answered twice or "
+           "dropped over any history, proved as answered_at_most_once with a 10-event witness history); the end of leadership leaves nothing pending "
+           "and shutdown answers ServerClosed. PARTIAL by nature: data races, concurrent map access, deadlock, goroutine leaks and shutdown latency "
+           "live in the Go runtime; no executable Gallina model exhibits them. They are exercised (supporting search only) by the simulator's panic "
+           "monitor on every event of every driver and by the live driver (real Serve, goroutines, timers: every task completes, Shutdown returns, "
+           "no panic).",
+  "design_ref": "DESIGN.md 5 (C15)", "note": NODE_NOTE,
+  "technique": "Coq proof of the task ledger over all node events + differential correspondence on task replies + panic monitor + live cluster driver",
  },
 }
